@@ -9,6 +9,7 @@ import (
 	"go.uber.org/zap/verif/props/c14"
 	"go.uber.org/zap/verif/props/c16"
 	"go.uber.org/zap/verif/props/c17"
+	"go.uber.org/zap/verif/props/c18"
 	"go.uber.org/zap/verif/props/c20"
 	"go.uber.org/zap/verif/props/encjson"
 )
@@ -24,5 +25,6 @@ func init() {
 	register("C07", "exploration", c07.Run, nil)
 	register("C10", "fault_enumeration", c10.Run, nil)
 	register("C16", "exploration", c16.Run, nil)
+	register("C18", "exploration", c18.Run, nil)
 	register("C02", "exploration", encjson.Run02, nil)
 }
